@@ -16,7 +16,7 @@ from ..symx import render
 META = {
     "level": "other",
     "technique": "comparator truth tables on raw-vs-compressed decisions, symbolic comparison (E5) of probe start/step and key-derivation expressions across sibling functions, flag-vocabulary inclusion over the resolved call graph",
-    "claim": "Decides that writer and reader agree on when data is compressed, on hash-table probing, on file-key derivation (incl. the position-adjusted key) and on the block-flag vocabulary, at every site. Does not decide bit-identical content for all inputs × configurations, HET/BET bit packing, or reported sizes. Also: the bound a reader compares the stored size with is the size it decompresses to; every sector-count site computes ceil(size/sector_size) (finite grid); sibling readers add the same position operand into the adjusted key; the key is derived from the final flags.",
+    "claim": "Decides that writer and reader agree on when data is compressed, on hash-table probing, on file-key derivation (incl. the position-adjusted key) and on the block-flag vocabulary, at every site. Does not decide bit-identical content for all inputs × configurations, HET/BET bit packing, or reported sizes. Also: the bound a reader compares the stored size with is the size it decompresses to; every sector-count site computes ceil(size/sector_size) (finite grid); sibling readers add the same position operand into the adjusted key; the key is derived from the final flags. Wave 5: the size operand of the adjusted key resolves to the file's uncompressed size on every branch of every reader.",
     "note": "Trusted: compress() store-raw rule (C03), hash_string (C04). Expressions are compared after AC normalisation; integer casts are transparent.",
     "assumptions": ["sector size is always 512 << shift via header.sector_size()"],
     "explanation": "compress / read_file / read_sectored_file / read_file_by_indices / prepare_file_data decisions; HashTable::find_file, ArchiveBuilder::add_to_hash_table, MutableArchive::{find_file_entry, add_to_hash_table}; calculate_file_key vs three reader derivations; FLAG_* written vs read.",
